@@ -27,26 +27,42 @@ def new_case(drv, rng, gen, rep, **kw):
     return None
 
 
-def mirror_agrees(rep, c, text, what="C"):
-    """correspondence L+G: loader mirror accepts what the loader accepted and predicts the same
-    slot layout / statement order.  Returns False (after recording) when it does not."""
+def mirror_issue(c, text):
+    """correspondence L+G: the loader mirror accepts what the loader accepted and predicts the same
+    slot layout / statement order.  Returns None, or (what, replay) describing the broken
+    correspondence; the caller goes on to search for a failing input before reporting it."""
     if c.mirror is None:
-        rep.violation("items of the parse could not be exported: " + getattr(c, "items_err", "?"),
-                      {"kind": "correspondence", "relation": "export-items", "text": text, "failing_input": None},
-                      failing_input_found=False)
-        return False
+        return ("items of the parse could not be exported: " + getattr(c, "items_err", "?"),
+                {"kind": "correspondence", "relation": "export-items", "text": text, "failing_input": None})
     if c.mirror["status"] != "ok":
-        rep.violation(f"loader mirror rejects ({c.mirror['error']}) a text the loader accepts",
-                      {"kind": "correspondence", "relation": "Load.load vs ode_from_string", "text": text,
-                       "mirror": c.mirror, "failing_input": None}, failing_input_found=False)
-        return False
+        return (f"loader mirror rejects ({c.mirror['error']}) a text the loader accepts",
+                {"kind": "correspondence", "relation": "Load.load vs ode_from_string", "text": text,
+                 "mirror": c.mirror, "failing_input": None})
     mm = c.layout_mismatches()
     if mm:
-        rep.violation("layout predicted by the mirror differs from the implementation: " + str(mm[:2]),
-                      {"kind": "correspondence", "relation": "Ode.sorted_names / sorted_states vs ODE.sorted_assignments",
-                       "text": text, "mismatches": mm, "failing_input": None}, failing_input_found=False)
+        return ("layout predicted by the mirror differs from the implementation: " + str(mm[:2]),
+                {"kind": "correspondence", "relation": "Ode.sorted_names / sorted_states vs ODE.sorted_assignments",
+                 "text": text, "mismatches": mm, "failing_input": None})
+    return None
+
+
+def mirror_agrees(rep, c, text, what="C"):
+    issue = mirror_issue(c, text)
+    if issue is not None:
+        rep.violation(issue[0], issue[1], failing_input_found=False)
         return False
     return True
+
+
+def settle(rep, issue, failing, structural=None):
+    """one verdict per case: a failing input if one was found; otherwise the broken
+    correspondence / validator rejection, reported as no-failing-input-found"""
+    if failing is not None:
+        rep.violation(failing[0], failing[1], finding_key=failing[2] if len(failing) > 2 else None)
+    elif issue is not None:
+        rep.violation(issue[0], issue[1], failing_input_found=False)
+    elif structural is not None:
+        rep.violation(structural[0], structural[1], failing_input_found=False)
 
 
 def try_generate(rep, c, text, **kw):
